@@ -103,3 +103,9 @@ PROPS["C20"] = dict(
     design_ref="§8 C20",
     rule="cases of 1-4 keystores x up to 400 ids incl. odd ids; ops create/get/has/has-never-created/createIdentity/sign/restart in PRNG order; non-trivial = a created key is read through a non-creator keystore, after a restart, or after >= 128 later creations",
 )
+
+_core_prop("C06", "Merge admits only verified, authorised entries and is all-or-nothing",
+    r"(join|joinN|append|tamper)/(join\..*|append\.denied|entries|len|heads|rawheads|values|clock|snapshot\..*|json\.heads)",
+    "Lean 4: theorems on the transcription of Join with an abstract per-candidate validity predicate (join_rejects, join_admits for every size bound, heads admitted), denied append, create-then-verify under an abstract codec/crypto; differential replay with access-controller denial and tampered source logs",
+    "Kernel-checked: if any candidate of a join is invalid (unsigned, mis-signed, key-less, denied) the result is the error outcome, which carries no new state; whatever a successful join (any size bound) leaves in the log was there before or is a candidate with the log's id that passed the validity predicate, and every merged head is such an entry; a log of another id is never merged; a denied append changes neither entries nor heads; an entry signed at creation verifies under every codec whose PreSign is idempotent on its own output (default, link-encrypting, legacy). Tied to the code: histories with per-replica denying access controllers and tampered copies of logs (no signature, corrupted signature, no key, foreign key, changed payload, other log id) used as join sources; error class and the full observation after every join compared with the model; real Verify/Join of entries under the link-encrypting and legacy codecs in the codec stream.",
+    CORE_NOTE + " The validity predicate is fed from the harness's knowledge of which entry objects it tampered with and which writers each controller denies; secp256k1 verification itself is trusted.")
